@@ -535,6 +535,221 @@ def r18_7(ctx, counts) -> RuleResult:
     return res
 
 
+def r18_8(ctx, counts) -> RuleResult:
+    """`instance of` / `treat as`: the item test sees the item; a mismatch is final"""
+    from ..engine.cfg import CFG, assigned_names, node_writes
+    from ..engine.dataflow import branch_facts
+    from ..engine.srcmodel import walk_local
+    from .common import enclosing_map
+    res = RuleResult(
+        'R18.8', 'ITEM-TEST-SEES-ITEM / MISMATCH-IS-FINAL',
+        'In the evaluators bound to `instance` and `treat` the kind / function test of the right '
+        'operand is evaluated once per item of the left operand with that item as the context '
+        'item: the call self[1].evaluate(X) sits in a loop over self[0].select(..) whose target '
+        'is X.item, or every path from the loop header to the call assigns the loop item to '
+        'X.item (otherwise every item is judged by the focus of the enclosing expression and '
+        '`(1, 2) treat as node()*` succeeds). In the `instance` evaluator a return reached under '
+        'the fact that the item test failed (empty result of the test, or is_instance false) does '
+        'not mention the occurrence indicator: `*` and `?` relax the cardinality, never the item '
+        'type (`1 instance of node()*` is false).')
+    funcs: dict[FuncInfo, set[str]] = {}
+    for rec in ctx.reg.all_records():
+        if rec.symbol in ('instance', 'treat'):
+            ref = rec.method('evaluate')
+            if ref is not None and ref.func is not None and ref.origin != 'class':
+                funcs.setdefault(ref.func, set()).add(rec.symbol)
+    if not any('instance' in v for v in funcs.values()) or \
+            not any('treat' in v for v in funcs.values()):
+        raise AnalysisError(f'evaluators of `instance` / `treat` not located: {funcs}')
+    n_calls = n_returns = 0
+    for f, syms in sorted(funcs.items(), key=lambda kv: kv[0].key):
+        me = f.params()[0]
+        cfg = CFG(f.node)
+        encl = enclosing_map(f.node)
+
+        def holder(x: ast.AST):
+            for nd in cfg.nodes:
+                if nd.ast is not None and nd.kind in ('stmt', 'test', 'for') and any(
+                        y is x for e in nd.exprs() for y in ast.walk(e)):
+                    return nd
+            return None
+
+        # (a) the test call sees the loop item
+        for c in walk_local(f.node):
+            if not (isinstance(c, ast.Call) and isinstance(c.func, ast.Attribute)
+                    and c.func.attr in ('evaluate', 'select')
+                    and stmt_text(c.func.value) == f'{me}[1]'):
+                continue
+            n_calls += 1
+            label = f'{f.key}: {stmt_text(c)[:50]} (L{c.lineno})'
+            if not c.args or not isinstance(c.args[0], ast.Name):
+                raise AnalysisError(f'{label}: context argument of the item test not a name')
+            cx = c.args[0].id
+            loops = [lp for lp in encl.get(id(c), []) if isinstance(lp, ast.For)
+                     and f'{me}[0]' in stmt_text(lp.iter)]
+            if not loops:
+                raise AnalysisError(f'{label}: the item test is not inside a loop over the '
+                                    f'items of {me}[0] (idiom not recognised)')
+            lp = loops[-1]
+            tparts = lp.target.elts if isinstance(lp.target, ast.Tuple) else [lp.target]
+            if any(stmt_text(t) == f'{cx}.item' for t in tparts):
+                res.instances.append(f'{label}: loop target is {cx}.item')
+                res.ok()
+                continue
+            tnames = set(assigned_names(lp.target))
+            head = [nd for nd in cfg.nodes if nd.ast is lp and nd.kind == 'for']
+            goal = holder(c)
+            if not head or goal is None:
+                raise AnalysisError(f'{label}: loop / call not located in the CFG')
+
+            def binds(nd) -> bool:
+                return any(t == f'{cx}.item' and isinstance(v, ast.Name) and v.id in tnames
+                           for t, v in node_writes(nd))
+            path = cfg.path_avoiding(head, lambda q: q is goal, binds,
+                                     follow=None)
+            res.instances.append(f'{label}: every path from the loop header binds {cx}.item to '
+                                 f'the item: {path is None}')
+            if path is None:
+                res.ok()
+            else:
+                res.fail(finding('R18.8', f, c, 'item test without the item',
+                                 f'`{stmt_text(c)[:50]}` judges the items of {me}[0] but '
+                                 f'{cx}.item is not bound to the loop item '
+                                 f'({"/".join(sorted(tnames))}) on the path '
+                                 f'{cfg.fmt_path(path)[:4]}: every item is judged by the '
+                                 f'context item of the enclosing expression, so '
+                                 f'`(1, 2) treat as node()*` succeeds when the focus is a node'))
+        # (b) a mismatch is not relaxed by the occurrence indicator
+        if 'instance' not in syms:
+            continue
+        occ = {t for nd in cfg.nodes for t, v in node_writes(nd)
+               if v is not None and not isinstance(v, (ast.For,)) and any(
+                   isinstance(y, ast.Attribute) and y.attr == 'occurrence' for y in ast.walk(v))}
+        tested = {t for nd in cfg.nodes for t, v in node_writes(nd)
+                  if isinstance(v, ast.Call) and isinstance(v.func, ast.Attribute)
+                  and stmt_text(v.func.value) == f'{me}[1]'}
+        facts = branch_facts(cfg)
+        for nd in cfg.nodes:
+            if nd.kind != 'stmt' or not isinstance(nd.ast, ast.Return) or nd.ast.value is None:
+                continue
+            fs = facts[nd.id]
+            mism = [fa for fa in fs if (fa[0] == '-' and (
+                fa[1:] in tested or fa[1:].startswith('is_instance(')))
+                or (fa[0] == '+' and any(fa[1:] in (f'len({t}) == 0', f'{t} == []',
+                                                       f'not {t}') for t in tested))]
+            if not mism:
+                continue
+            n_returns += 1
+            uses = [y for y in ast.walk(nd.ast.value)
+                    if (isinstance(y, ast.Name) and y.id in occ)
+                    or (isinstance(y, ast.Attribute) and y.attr == 'occurrence')]
+            res.instances.append(f'{f.key}: L{nd.ast.lineno} `{stmt_text(nd.ast)[:50]}` under '
+                                 f'{sorted(mism)[:1]}: independent of the occurrence '
+                                 f'indicator: {not uses}')
+            if not uses:
+                res.ok()
+            else:
+                res.fail(finding('R18.8', f, nd.ast, 'mismatch relaxed by occurrence',
+                                 f'`{stmt_text(nd.ast)[:70]}` is reached when the item does not '
+                                 f'match the item type ({sorted(mism)[0]}) and its value depends '
+                                 f'on the occurrence indicator: `1 instance of node()*` and '
+                                 f'`"x" instance of element()?` are true'))
+    counts['item_test_calls'] = n_calls
+    counts['mismatch_returns'] = n_returns
+    if n_calls < 2 or n_returns < 2:
+        raise AnalysisError(f'instance/treat: item test calls {n_calls}, mismatch returns '
+                            f'{n_returns}; at least 2 of each are expected')
+    return res
+
+
+def r18_9(ctx, counts) -> RuleResult:
+    """what is built as xs:double is a plain float, never the xs:float subclass"""
+    from ..engine.cfg import CFG
+    from ..engine.dataflow import branch_facts
+    model: Model = ctx.model
+    res = RuleResult(
+        'R18.9', 'XS-DOUBLE-IS-PLAIN-FLOAT',
+        'xs:float values are instances of datatypes.Float, a subclass of float that the atomic '
+        'hierarchy keeps out of xs:double (DoubleProxy.__subclasshook__). The constructors of '
+        'xs:double (DoubleProxy.__new__ / make, DoubleProxy10.__new__) and the helper they '
+        'delegate to (helpers.get_double, also behind fn:number and `cast as xs:double`) '
+        'therefore return on every path a fresh plain float: float(..), math.nan / math.inf, a '
+        'float literal, or the result of another member of this chain; a parameter handed back '
+        'unchanged is accepted only under the fact `type(p) is float`. Otherwise '
+        'number(xs:float("1.5")) instance of xs:double is false and number#1 applied to an '
+        'xs:float raises XPTY0004.')
+    chain: list[FuncInfo] = []
+    helpers = model.module('elementpath.helpers')
+    g = helpers.toplevel_function('get_double')
+    if g is None:
+        raise AnalysisError('helpers.get_double vanished')
+    chain.append(g)
+    prox = model.module('elementpath.datatypes.proxies')
+    for cname in ('DoubleProxy', 'DoubleProxy10'):
+        cls = prox.classes.get(cname)
+        if cls is None:
+            raise AnalysisError(f'datatypes.proxies.{cname} vanished')
+        for mname in ('__new__', 'make'):
+            m = cls.methods.get(mname)
+            if m is not None:
+                chain.append(m)
+    names = {f.name for f in chain if f.cls is None}
+    n = 0
+    for f in chain:
+        cfg = CFG(f.node)
+        facts = branch_facts(cfg)
+        params = set(f.params())
+        for nd in cfg.nodes:
+            if nd.kind != 'stmt' or not isinstance(nd.ast, ast.Return) or nd.ast.value is None:
+                continue
+            n += 1
+            v = nd.ast.value
+            alts = [v]
+            plain = True
+            why = ''
+            while alts:
+                e = alts.pop()
+                if isinstance(e, ast.IfExp):
+                    alts += [e.body, e.orelse]
+                    continue
+                if isinstance(e, ast.UnaryOp) and isinstance(e.op, (ast.USub, ast.UAdd)):
+                    alts.append(e.operand)
+                    continue
+                if isinstance(e, ast.Constant) and isinstance(e.value, float):
+                    continue
+                d = dotted(e)
+                if d in ('math.nan', 'math.inf', 'nan', 'inf'):
+                    continue
+                if isinstance(e, ast.Call):
+                    cd = dotted(e.func)
+                    last = cd.split('.')[-1]
+                    if cd == 'float' or last in names or \
+                            (cd.startswith(('cls.', 'super().')) and last in ('make', '__new__')):
+                        continue
+                if isinstance(e, ast.Name) and e.id in params:
+                    fs = facts[nd.id]
+                    if any(fa == f'+type({e.id}) is float' for fa in fs) or any(
+                            fa.startswith('-') and f'isinstance({e.id}, Float)' in fa for fa in fs):
+                        continue
+                plain = False
+                why = stmt_text(e)[:40]
+            res.instances.append(f'{f.key}: L{nd.ast.lineno} `{stmt_text(nd.ast)[:50]}` plain '
+                                 f'float: {plain}')
+            if plain:
+                res.ok()
+            else:
+                res.fail(finding('R18.9', f, nd.ast, 'xs:double built from an unconverted value',
+                                 f'`{stmt_text(nd.ast)[:70]}` hands back `{why}` without '
+                                 f'float(..): an xs:float argument (datatypes.Float, a float '
+                                 f'subclass excluded from xs:double) keeps its class, so '
+                                 f'number(xs:float("1.5")) instance of xs:double is false and '
+                                 f'`cast as xs:double` yields an xs:float'))
+    counts['double_construction_returns'] = n
+    if n < 5:
+        raise AnalysisError(f'xs:double construction chain: {n} returns located, expected >= 5')
+    return res
+
+
 def run(ctx) -> dict:
     counts: dict[str, int] = {}
     from .c10_datatypes import r10_1, SPEC as C10SPEC
@@ -547,7 +762,8 @@ def run(ctx) -> dict:
                                   'validated_argument', 'validated_value'}, rule='R05.1')
     r4.title = 'JUDGEMENT-PURITY (R18.4 = R05.1 on the sequence-type judgement code)'
     results = [r18_1(ctx, counts), r18_2(ctx, counts), r3, r4, r18_6(ctx, counts),
-               r18_7(ctx, counts)]
+               r18_7(ctx, counts), r18_8(ctx, counts),
+               r18_9(ctx, counts)]
     return {
         'results': results, 'counts': counts,
         'explanation':
